@@ -13,6 +13,13 @@ CONSTANTS
   ShiftHi <- MCShiftHi
   TimeDeltas <- BigTimeDeltas
   YfDays <- BigYfDays
+  FracDen <- MCFracDen
+  FracYears <- BigFracYears
+  FracMonthPins <- MCFracMonthPins
+  FracDayPins <- MCFracDayPins
+  FracStarts <- BigFracStarts
+  FracShiftLo <- MCFracShiftLo
+  FracShiftHi <- MCFracShiftHi
 SPECIFICATION Spec
 INVARIANT TypeOK
 INVARIANT SerialClosedForm
@@ -31,9 +38,11 @@ INVARIANT DateInRange
 INVARIANT ShiftLaws
 INVARIANT ClockLaws
 INVARIANT YearFracSane
+INVARIANT FracLaws
 INVARIANT Export
 PROPERTY WeekdayStep
 PROPERTY EoMonthIsMonthEnd
 PROPERTY DayArgLinear
 PROPERTY EoMonthStep
 PROPERTY YearFracSymmetric
+PROPERTY FracStep
